@@ -395,9 +395,9 @@ void MatrixAppendCol(matrix* m, dvector *col)
 
   lastcol = m->col;
 
-  if(rowsize < m->row){
+  if(col->size < m->row){
     for(i = 0; i < m->row; i++ ){
-      if(i < rowsize)
+      if(i < col->size)
         m->data[i][lastcol] = col->data[i];
     else
       m->data[i][lastcol] = +0.f;
@@ -525,9 +525,9 @@ void MatrixAppendUICol(matrix* m, uivector *col)
 
   lastcol = m->col;
 
-  if(rowsize < m->row){
+  if(col->size < m->row){
     for(i = 0; i < m->row; i++ ){
-      if(i < rowsize)
+      if(i < col->size)
         m->data[i][lastcol] = col->data[i];
     else
       m->data[i][lastcol] = +0.f;
